@@ -23,6 +23,7 @@ structure Rep where
   ckpt    : String            -- Info.Checkpoint
   rebuilding : Bool
   maxChain : Nat              -- types.MaxChainLength (0 = the built-in 1024)
+  qDead   : Bool              -- harness protocol: the second healthy replica of the rebuild set-up was killed
   srcRev  : Nat               -- during a rebuild, after the swap: the source's revision counter
   rb      : Nat               -- rebuild phase of the harness protocol: 0 none, 1 begun, 2 reloaded, 4 mapped, 3 promoted
 
@@ -68,7 +69,7 @@ namespace Rep
 
 def init (bs nb : Nat) : Rep :=
   { dd := DD.init bs nb, names := [], recs := [], orphans := [], isOpen := true, mode := .init, rev := 1,
-    headN := 0, ckpt := "", rebuilding := false, maxChain := 0, srcRev := 0, rb := 0 }
+    headN := 0, ckpt := "", rebuilding := false, maxChain := 0, qDead := false, srcRev := 0, rb := 0 }
 
 /-- payload of `w off len tag` at absolute unit `u` -/
 def payload (off tag : Nat) (u : Nat) : Nat := tag * 1000000 + (u - off) + 1
@@ -175,7 +176,7 @@ def step (r : Rep) : RepOp → Rep × RepOut
     -- Controller.Start opens the (closed) replica with preload and makes it RW; AddReplica then takes
     -- the automatic snapshot on every replica
     ({ r with dd := (r.dd.reopen true).snapshot false, names := r.names ++ [n], recs := r.bumpRecs ++ [r.rev],
-              headN := r.headN + 1, rb := 1 }, .ok)
+              headN := r.headN + 1, rb := 1, qDead := false }, .ok)
   | .rbReload =>
     if r.rb ≠ 1 || !r.isOpen then (r, .refused) else
     -- from here on the replica under test is the rebuilt one: the source's snapshot files, its own
